@@ -529,10 +529,19 @@ func TestVerifReplay(t *testing.T) {
 	}
 	var out []byte
 	for k := 0; k < tries; k++ {
-		cmd := exec.Command("go", "test", "-vet=off", "-count=1", "-run", "^TestVerifReplay$", "-overlay", ovp, "./"+rf.Pkg)
+		args := []string{"test", "-vet=off", "-count=1", "-run", "^TestVerifReplay$", "-overlay", ovp}
+		race := strings.HasPrefix(rf.Label, "no-data-race/")
+		if race {
+			args = append(args, "-race")
+		}
+		args = append(args, "./"+rf.Pkg)
+		cmd := exec.Command("go", args...)
 		cmd.Dir = repoDir
 		cmd.Env = append(os.Environ(), "GOFLAGS=-mod=mod", "GOPROXY=off", "GOSUMDB=off", "GOTOOLCHAIN=local", "VERIF_REPLAY="+path)
 		out, _ = cmd.CombinedOutput()
+		if race && strings.Contains(string(out), "WARNING: DATA RACE") {
+			return true, string(out)
+		}
 		if strings.Contains(string(out), "VERIF-ASSERT-FAILED label="+rf.Label+"\n") || strings.Contains(string(out), "VERIF-ASSERT-FAILED label="+rf.Label+" ") {
 			return true, string(out)
 		}
